@@ -530,6 +530,15 @@ def text_diff(a, b, limit=3):
     return out
 
 
+def header_field(text, key):
+    """Value of a header keyword (ORIGINATOR, CREATION_DATE) in a KVN or XML message, None when absent."""
+    if text_format(text) == "kvn":
+        m = re.search(r"^%s[ \t]*=[ \t]*(.*?)[ \t]*$" % re.escape(key), text, re.M)
+    else:
+        m = re.search(r"<%s>\s*(.*?)\s*</%s>" % (re.escape(key), re.escape(key)), text, re.S)
+    return m.group(1) if m else None
+
+
 def text_format(text):
     """'kvn' / 'xml' from the text itself (KVN starts with the version keyword, XML with a declaration/tag)."""
     s = text.lstrip()
@@ -700,6 +709,8 @@ def selftest():
     x1 = "<?xml version='1.0'?>\n<opm><header><CREATION_DATE>2020-01-01T00:00:00.1</CREATION_DATE></header></opm>"
     assert text_diff(x1, x1.replace("2020", "2033")) == []
     assert text_format(k1) == "kvn" and text_format(x1) == "xml"
+    assert header_field(k1 + "ORIGINATOR = A B\n", "ORIGINATOR") == "A B" and header_field(k1, "ORIGINATOR") is None
+    assert header_field(x1.replace("</header>", "<ORIGINATOR>A B</ORIGINATOR></header>"), "ORIGINATOR") == "A B"
     kk = "Z_DOT = 1 [km/s]\n\nCOMMENT  Keplerian elements\nSEMI_MAJOR_AXIS      =  6988.5 [km]\nGM                   = 398600.9368 [km**3/s**2]\n\nCX_X = 1\n"
     assert strip_derived(kk) == "Z_DOT = 1 [km/s]\n\nCX_X = 1\n", repr(strip_derived(kk))
     xx = "  </stateVector>\n  <keplerianElements>\n    <GM units=\"km**3/s**2\">1</GM>\n  </keplerianElements>\n  <covarianceMatrix>\n"
